@@ -278,13 +278,39 @@ def r6_batch_slots(ctx):
 
 
 
+def r8_http_client_id_check(ctx):
+    """the HTTP client (one call per HTTP exchange) hands a result back only when the response's id equals the id it put
+    on the wire: the Ok(..) of HttpClient::request is control-dependent on `response.id == request id`, both operands
+    being what they should be (the parsed response's id member; the id allocated for this call)"""
+    F, R = ctx.F, ctx.R
+    tr = ctx.tracer(follow_callers=False, follow_fields=False)
+    b = F.one(r"^<jsonrpsee_http_client::client::HttpClient<S> as jsonrpsee_core::client::ClientT>::request::\{closure#0\}$")
+    R.fn(b)
+    eqs = [c for c in b.calls_to(r"PartialEq>?::(eq|ne)$") if "jsonrpsee_types::Id<" in (c.self_ty or "") or "params::Id<" in (c.self_ty or "")]
+    oks = [(bi, st) for bi, blk in enumerate(b.blocks) if bi in b.reachable and not blk.get("cleanup") for st in blk["st"]
+           if st["s"] == "assign" and st["pl"]["l"] == 0 and not st["pl"].get("p") and st["rv"]["k"] == "agg" and st["rv"].get("variant") == "Ok"]
+    R.check(len(eqs) == 1 and bool(oks), "C03.R8", "http:id-compared", "HttpClient::request compares the response id with the request id", "HttpClient::request has %d id comparisons and %d Ok(..) results: a response bearing another id would be handed to the caller" % (len(eqs), len(oks)), "%s:%d" % (b.file, b.lo))
+    for c in eqs:
+        is_ne = (c.name() or "").endswith("::ne")
+        good_t = None
+        for sb, arms, other in flow.switch_on(b, c.dest["l"]):
+            good_t = arms.get("0") if is_ne else arms.get("1")
+        for bi, st in oks:
+            R.check(good_t is not None and b.dominates(good_t, bi), "C03.R8", "http:ok-only-when-ids-equal", "Ok(result) is returned only on the ids-equal branch", "HttpClient::request returns Ok(result) without the response id having been found equal to the request id", "%s:%d" % (b.file, st["sp"][0]))
+        sides = []
+        for a in c.args[:2]:
+            lv = tr.origins(b, a)
+            sides.append("rp" if any(l.kind == "call" and re.search(r"ResponseSuccess<.*>::try_from$|TryFrom.*::try_from$|run_future_until_timeout$|RpcServiceT::call$", l.detail["callee"] or "") for l in lv) else ("req" if any(l.kind == "call" and re.search(r"RequestIdManager::next_request_id$", l.detail["callee"] or "") for l in lv) else "?"))
+        R.check(sorted(sides) == ["req", "rp"], "C03.R8", "http:compares-the-right-ids", "the comparison is between the parsed response's id and the id allocated for this call", "the id comparison in HttpClient::request is between %s" % sides, where(c))
+
+
 def rarr_every_element(ctx):
     """an array message is processed element by element to the end"""
     from .common import array_elements_all_processed
     array_elements_all_processed(ctx.F, ctx.R, "C03.ARR")
 
 
-RULES = [r1_id_and_wire_agree, r2_key_discipline, r3_insert_before_send, r4_completion_consumes, r5_allocator, r6_batch_slots, r7_ids_not_ordered, rarr_every_element]
+RULES = [r1_id_and_wire_agree, r2_key_discipline, r3_insert_before_send, r4_completion_consumes, r5_allocator, r6_batch_slots, r7_ids_not_ordered, r8_http_client_id_check, rarr_every_element]
 
 LEVEL_TEXT = (
     "Structural necessary conditions of response demultiplexing decided from the type-checked program: the recorded id "
